@@ -415,7 +415,81 @@ def _strip_subscripts(n):
     return n
 
 
-def shared_default_mutations(fi, esc):
+def _may_shared_expr(v, esc, locs, rets):
+    """may the value of expression v be a shared default argument object?
+    (attribute that may hold one, a local that may, the result of a call of
+    a function (by name) that may return one; through conditional / boolean
+    expressions)"""
+    if isinstance(v, ast.Attribute):
+        return v.attr in esc
+    if isinstance(v, ast.Name):
+        return v.id in locs
+    if isinstance(v, ast.Call):
+        f = v.func
+        nm = f.attr if isinstance(f, ast.Attribute) else (
+            f.id if isinstance(f, ast.Name) else None)
+        return nm in rets
+    if isinstance(v, ast.IfExp):
+        return _may_shared_expr(v.body, esc, locs, rets) or \
+            _may_shared_expr(v.orelse, esc, locs, rets)
+    if isinstance(v, ast.BoolOp):
+        return any(_may_shared_expr(x, esc, locs, rets) for x in v.values)
+    return False
+
+
+def _own_nodes(node):
+    out = []
+
+    def walk(n):
+        for c in ast.iter_child_nodes(n):
+            if isinstance(c, (ast.FunctionDef, ast.Lambda, ast.ClassDef)):
+                continue
+            out.append(c)
+            walk(c)
+    walk(node)
+    return out
+
+
+def _shared_locals(node, esc, rets):
+    """locals of the function that may be bound to a shared default argument
+    object (flow-insensitive: any plain assignment of such a value)"""
+    locs = set()
+    body = _own_nodes(node)
+    changed = True
+    while changed:
+        changed = False
+        for c in body:
+            if isinstance(c, ast.Assign) and len(c.targets) == 1 and \
+                    isinstance(c.targets[0], ast.Name) and \
+                    c.targets[0].id not in locs and \
+                    _may_shared_expr(c.value, esc, locs, rets):
+                locs.add(c.targets[0].id)
+                changed = True
+    return locs, body
+
+
+def returns_shared(repo, esc):
+    """names of functions that may return a shared default argument object
+    (interprocedural fixed point, calls resolved by name)"""
+    rets = set()
+    changed = True
+    while changed:
+        changed = False
+        for q, fi in repo.funcs.items():
+            nm = q.rsplit('.', 1)[-1]
+            if nm in rets:
+                continue
+            locs, body = _shared_locals(fi.node, esc, rets)
+            for c in body:
+                if isinstance(c, ast.Return) and c.value is not None and \
+                        _may_shared_expr(c.value, esc, locs, rets):
+                    rets.add(nm)
+                    changed = True
+                    break
+    return rets
+
+
+def shared_default_mutations(fi, esc, rets=frozenset()):
     """in-place mutations of a list/dict reached through an attribute that
     may hold a shared default argument object (directly or through a local
     alias): [(lineno, text, why)].  Not flagged: the object was built in the
@@ -445,9 +519,15 @@ def shared_default_mutations(fi, esc):
             elif isinstance(v, ast.Attribute) and v.attr in esc:
                 alias[c.targets[0].id] = v.attr
 
+    via_call, _ = _shared_locals(node, esc, rets)
+
     def hit(container):
         """container: expression of the mutated list/dict"""
         c = _strip_subscripts(container)
+        if isinstance(c, ast.Name) and c.id in via_call and \
+                c.id not in alias:
+            return 'local %s may be bound to a shared default argument ' \
+                'object (returned by a callee / held by an attribute)' % c.id
         if isinstance(c, ast.Attribute) and c.attr in esc:
             base = c.value
             if isinstance(base, ast.Name) and base.id in explicit:
@@ -535,11 +615,12 @@ def check(repo=None):
         todo += [c for c in edges.get(q, ()) if c not in reach]
     obligations = []
     esc = default_escapes(repo)
+    rets = returns_shared(repo, esc)
     for q in sorted(reach):
         f = facts[q]
         shared = {}
         for lineno, text, why in shared_default_mutations(repo.funcs[q],
-                                                          esc):
+                                                          esc, rets):
             shared[(lineno, text)] = why
         for lineno, text, bad, why in f.stores:
             name = 'frame:call-local:%s:%s' % (q, text)
